@@ -1331,6 +1331,153 @@ fn gen_c05_weak(cfg: &GenCfg, rng: &mut Rng, w: &mut dyn Write, kind: &str) {
     }
 }
 
+/// C14, allocation points *before* the recursion: operations that first build auxiliary nodes
+/// (substitution: one variable node per level without replacement; cubes and variable sets) in a
+/// manager where those variable nodes do not exist yet, so that for some capacity the failing
+/// allocation is one of the preparation phase
+fn gen_c14_sparse(cfg: &GenCfg, rng: &mut Rng, w: &mut dyn Write, kind: &str) {
+    if zbdd(kind) {
+        return; // ZBDDs have no substitution/quantification; their variable nodes are the tautology chain
+    }
+    let scripts = if cfg.thorough { 16 } else { 4 } * cfg.scale;
+    for sc in 0..scripts {
+        let n = rng.range(4, 5) as u32;
+        let seed = rng.next();
+        let cmax = if cfg.thorough { 40 } else { 30 };
+        let step = if cfg.thorough { 1 } else { 2 };
+        let mut cap = 0usize;
+        while cap <= cmax {
+            let mut r2 = Rng(seed);
+            writeln!(w, "case c14-sparse-s{}-cap{}", sc, cap).unwrap();
+            writeln!(w, "mgr nodes={} cache=16 threads=1 vars={}", cap, n).unwrap();
+            // functions over the lower variables only, built from truth tables; the collection
+            // removes the construction's temporaries, in particular the plain variable nodes
+            let low = r2.range(1, 2) as u32;
+            for i in 0..3 {
+                let mut t = r2.next() & ((1u64 << (1u64 << n)) - 1);
+                // make it independent of the variables above `low` (copy the cofactor)
+                for v in 0..low {
+                    let mut t2 = 0u64;
+                    for a in 0..(1u64 << n) {
+                        let a0 = a & !(1 << v);
+                        if (t >> a0) & 1 == 1 {
+                            t2 |= 1 << a;
+                        }
+                    }
+                    t = t2;
+                }
+                writeln!(w, "tt g{} {:x}", i, t).unwrap();
+            }
+            writeln!(w, "gc").unwrap();
+            for round in 0..4 {
+                let f = format!("g{}", r2.below(3));
+                let g = format!("g{}", r2.below(3));
+                // replace one or two of the lower variables; the levels above have no replacement
+                let v1 = r2.range(low as u64, (n - 1) as u64) as u32;
+                let v2 = r2.range(low as u64, (n - 1) as u64) as u32;
+                if v1 == v2 || r2.chance(1, 2) {
+                    writeln!(w, "mksubst s{} {}={}", round, v1, g).unwrap();
+                } else {
+                    writeln!(w, "mksubst s{} {}={} {}={}", round, v1, g, v2, f).unwrap();
+                }
+                writeln!(w, "subst r{} {} s{}", round, f, round).unwrap();
+                writeln!(w, "dropsubst s{}", round).unwrap();
+                writeln!(w, "cube vs{} +{} +{}", round, v1, r2.below(n as u64)).unwrap();
+                writeln!(w, "quant q{} {} {} vs{}", round, r2.pick(&["exists", "forall", "unique"]), f, round).unwrap();
+                writeln!(w, "cube cs{} {}{} {}{}", round, if r2.chance(1, 2) { "+" } else { "-" }, v1, if r2.chance(1, 2) { "+" } else { "-" }, (v1 + 1) % n).unwrap();
+                writeln!(w, "restrict k{} {} cs{}", round, g, round).unwrap();
+                if round % 2 == 1 {
+                    for x in ["r", "q", "k"] {
+                        writeln!(w, "drop {}{}", x, round).unwrap();
+                        writeln!(w, "drop {}{}", x, round - 1).unwrap();
+                    }
+                    writeln!(w, "drop vs{}", round).unwrap();
+                    writeln!(w, "drop cs{}", round).unwrap();
+                    writeln!(w, "gc").unwrap();
+                }
+            }
+            cap += step;
+        }
+    }
+}
+
+/// C14, every allocation point of one operation: the store is filled with ballast until exactly
+/// j slots are free (j = 0, 1, 2, ...), the operation runs (its (j+1)-th allocation fails), the
+/// manager is audited, the ballast is dropped and collected, and the same operation is retried
+/// (it must now succeed with the reference result). The operands live on the variables
+/// `top..top+n`; `top` variables above them have no nodes at all (operations that build auxiliary
+/// variable nodes allocate them first); the ballast lives on four variables at the bottom.
+fn gen_c14_fill(cfg: &GenCfg, rng: &mut Rng, w: &mut dyn Write, kind: &str) {
+    let scripts = if cfg.thorough { 12 } else { 3 } * cfg.scale;
+    for sc in 0..scripts {
+        let top = rng.range(1, 2) as u32;
+        let n = 3u32;
+        let nv = top + n + 4;
+        let (blo, bhi) = (top + n, nv);
+        let cap = 64usize;
+        writeln!(w, "case c14-fill-s{}", sc).unwrap();
+        writeln!(w, "mgr nodes={} cache=16 threads=1 vars={}", cap, nv).unwrap();
+        let mut pool: Vec<String> = Vec::new();
+        for v in top..top + n {
+            if rng.chance(2, 3) {
+                writeln!(w, "var x{} {}", v, v).unwrap();
+                pool.push(format!("x{v}"));
+            }
+        }
+        if pool.len() < 2 {
+            writeln!(w, "var y{} {}", top + n - 1, top + n - 1).unwrap();
+            writeln!(w, "notvar ny{} {}", top + 1, top + 1).unwrap();
+            pool.push(format!("y{}", top + n - 1));
+            pool.push(format!("ny{}", top + 1));
+        }
+        for s in 0..5 {
+            writeln!(w, "op g{} {} {} {}", s, rng.pick(&BIN_OPS), rng.pick(&pool), rng.pick(&pool)).unwrap();
+            pool.push(format!("g{s}"));
+        }
+        writeln!(w, "gc").unwrap();
+        let nops = if cfg.thorough { 14 } else { 8 };
+        for _ in 0..nops {
+            let f = rng.pick(&pool).clone();
+            let g = rng.pick(&pool).clone();
+            let h = rng.pick(&pool).clone();
+            let v1 = rng.range(top as u64, (top + n - 1) as u64) as u32;
+            let v2 = rng.range(0, (top + n - 1) as u64) as u32;
+            let v3 = (v1 + 1 - top) % n + top;
+            let q = *rng.pick(&["exists", "forall", "unique"]);
+            let sg = |r: &mut Rng| if r.chance(1, 2) { "+" } else { "-" };
+            // preparation lines (handles the operation needs), the operation itself, clean-up
+            let (prep, op, cleanup): (Vec<String>, String, Vec<String>) = match if zbdd(kind) { rng.below(3) } else { rng.below(8) } {
+                0 => (vec![], format!("op r {} {} {}", rng.pick(&BIN_OPS), f, g), vec![]),
+                1 => (vec![], format!("op r ite {} {} {}", f, g, h), vec![]),
+                2 => (vec![], format!("op r not {}", f), vec![]),
+                3 => (vec![format!("mksubst s {}={}", v1, g)], format!("subst r {} s", f), vec!["dropsubst s".into()]),
+                4 => (vec![format!("mksubst s {}={} {}={}", v1, g, v3, h)], format!("subst r {} s", f), vec!["dropsubst s".into()]),
+                5 => (vec![format!("cube vs +{} +{}", v1, v2)], format!("quant r {} {} vs", q, f), vec!["drop vs".into()]),
+                6 => (vec![format!("cube vs +{}", v1)], format!("applyq r {} {} {} {} vs", q, rng.pick(&BIN_OPS), f, g), vec!["drop vs".into()]),
+                _ => (vec![format!("cube cs {}{} {}{}", sg(rng), v1, sg(rng), v3)], format!("restrict r {} cs", f), vec!["drop cs".into()]),
+            };
+            for j in 0..(if cfg.thorough { 10 } else { 7 }) {
+                for p in &prep {
+                    writeln!(w, "{}", p).unwrap();
+                }
+                writeln!(w, "ballast {} {} {} {}", j, rng.below(1 << 30), blo, bhi).unwrap();
+                writeln!(w, "{}", op).unwrap();
+                writeln!(w, "dropballast").unwrap();
+                writeln!(w, "gc").unwrap();
+                // retry after space has been freed
+                writeln!(w, "{}", op).unwrap();
+                writeln!(w, "drop r").unwrap();
+                for c in &cleanup {
+                    writeln!(w, "{}", c).unwrap();
+                }
+                writeln!(w, "gc").unwrap();
+            }
+        }
+        writeln!(w, "dropall").unwrap();
+        writeln!(w, "gc").unwrap();
+    }
+}
+
 fn generate(cfg: &GenCfg, rng: &mut Rng, w: &mut dyn Write) {
     let kind = cfg.extra.get("kind").map(|s| s.as_str()).unwrap_or("bdd").to_string();
     let suite = cfg.extra.get("suite").map(|s| s.as_str()).unwrap_or("c02").to_string();
@@ -1344,7 +1491,11 @@ fn generate(cfg: &GenCfg, rng: &mut Rng, w: &mut dyn Write) {
         "c06" => gen_c06(cfg, rng, w, &kind),
         "c07" => gen_c07(cfg, rng, w, &kind),
         "c08" => gen_c08(cfg, rng, w, &kind),
-        "c14" => gen_c14(cfg, rng, w, &kind),
+        "c14" => {
+            gen_c14(cfg, rng, w, &kind);
+            gen_c14_sparse(cfg, rng, w, &kind);
+            gen_c14_fill(cfg, rng, w, &kind);
+        }
         "kf-zbdd-reorder" => gen_kf_zbdd_reorder(w),
         "kf-reorder-oom" => gen_kf_reorder_oom(w),
         "kf-zbdd-addvars-oom" => gen_kf_zbdd_addvars_oom(w),
